@@ -34,7 +34,7 @@ type closeRaceCase struct {
 func TestC16_CloseRace(t *testing.T) {
 	var h host.Host
 	pbt.Run(t, pbt.Config{Prop: "C16", Unit: "TestC16_CloseRace", TrackCurrent: true,
-		Rule: "2..6 goroutines call Close on the same fresh receiver at the same instant (barrier), optionally with a Next call waiting and a Direct call racing, on receivers without a topic or with their own gossipsub topic on a real loopback host; repeated 5..40 times per case on fresh receivers; oracle: no Close call panics (recovered in the calling goroutine) and every call returns within 2 s (normal cost: microseconds; a miss is re-tried on fresh receivers before it is reported), Close returns nil, the waiting Next returns the closed error. Non-trivial: >= 3 closers or a topic; distinct by case.",
+		Rule: "2..6 goroutines call Close on the same fresh receiver at the same instant (barrier), optionally with a Next call waiting and a Direct call racing, on receivers without a topic or with their own gossipsub topic on a real loopback host; repeated 5..40 times per case on fresh receivers; oracle: no Close call panics (recovered in the calling goroutine) and every call returns within 2 s (normal cost: microseconds; a miss is re-tried on fresh receivers before it is reported), Close returns nil, the waiting Next returns the closed error or the racing Direct call's announcement. Non-trivial: >= 3 closers or a topic; distinct by case.",
 		Assumptions: []string{"interleavings are sampled by the Go scheduler on 16 cores"},
 	}, func(t *rapid.T) closeRaceCase {
 		return closeRaceCase{Closers: rapid.IntRange(2, 6).Draw(t, "closers"), Topic: rapid.Bool().Draw(t, "topic"), Reps: rapid.IntRange(5, 40).Draw(t, "reps"),
@@ -75,8 +75,10 @@ func TestC16_CloseRace(t *testing.T) {
 				wg.Add(1)
 				go func() {
 					defer wg.Done()
-					if _, err := r.Next(context.Background()); err == nil {
-						report("Next returned an announcement although nothing was announced")
+					// the racing Direct call may get in before the first Close: then the waiter receives its
+					// announcement; anything else was never announced
+					if a, err := r.Next(context.Background()); err == nil && !(c.Direct && a.Cid == cidOf(1)) {
+						report(fmt.Sprintf("Next returned an announcement of %s, which was never announced", a.Cid))
 					}
 				}()
 			}
@@ -119,8 +121,15 @@ func TestC16_CloseRace(t *testing.T) {
 				return viol, true
 			}
 			// later calls behave as on any closed receiver
-			if err := r.Close(); err != nil {
-				report("Close after the race returned " + err.Error())
+			later := make(chan error, 1)
+			go func() { later <- r.Close() }()
+			select {
+			case err := <-later:
+				if err != nil {
+					report("Close after the race returned " + err.Error())
+				}
+			case <-time.After(2 * time.Second):
+				return viol, true
 			}
 			return viol, false
 		}
